@@ -16,7 +16,10 @@ Inductive zop :=
 | ZQ (q p : Z)
 | ZV (batch : list (Z * Z * Z))        (* StartForward(reserve = true) + Put on every layer, graph reserved only *)
 | ZFf (batch : list (Z * Z * Z)) (k : Z)   (* StartForward during which the k-th mask upload fails (0 = first cache) *)
-| ZRf (q b e : Z).                     (* Remove during which the backend calls of shift fail *)
+| ZRf (q b e : Z)                      (* Remove during which the backend calls of shift fail *)
+| ZFs (batch : list (Z * Z * Z)) (calls : list (list Z))
+      (obs0 obs1 : list (list (list Z))).   (* a forward pass with SetCausal calls; observed mask rows after each call,
+                                               for the (first) cache and for the second cache of a wrapper *)
 
 Definition conv_batch (l : list (Z * Z * Z)) : list entry :=
   map (fun x => let '(q, p, t) := x in (Z.to_nat q, p, Z.to_N t)) l.
@@ -24,6 +27,7 @@ Definition conv_batch (l : list (Z * Z * Z)) : list entry :=
 Definition to_op (o : zop) : op :=
   match o with
   | ZV _ | ZFf _ _ | ZRf _ _ _ => CanResume 0 0
+  | ZFs l _ _ _ => Forward (conv_batch l)
   | ZF l => Forward (map (fun x => let '(q, p, t) := x in (Z.to_nat q, p, Z.to_N t)) l)
   | ZC s d len => Copy (Z.to_nat s) (Z.to_nat d) len
   | ZR q b e => Remove (Z.to_nat q) b e
@@ -101,6 +105,26 @@ Definition zstep (fx : bool) (c : cache) (o : zop) : cache * out :=
   | _ => step fx c (to_op o)
   end.
 
+(** the SetCausal calls of a pass against the observed masks *)
+Definition eqb_rows (m : list (list nat)) (o : list (list Z)) : bool :=
+  (length m =? length o)%nat && forallb (fun xy => eqb_listZ (map Z.of_nat (fst xy)) (snd xy)) (combine m o).
+
+Fixpoint chk_calls (c : cache) (pr : rng) (batch : list entry) (ps : pass) (calls : list (list Z)) (obs : list (list (list Z))) : bool :=
+  match calls, obs with
+  | [], [] => true
+  | ex :: ct, o :: ot =>
+      let ps' := set_causal c pr batch ps (map Z.to_nat ex) true in
+      eqb_rows (p_vis ps') o && chk_calls c pr batch ps' ct ot
+  | _, _ => false
+  end.
+
+Definition chk_sc (c' : cache) (r : out) (o : zop) (second : bool) : bool :=
+  match o, r with
+  | ZFs l calls obs0 obs1, OFwd f =>
+      chk_calls c' (f_min f, f_max f) (conv_batch l) (pass_start f) calls (if second then obs1 else obs0)
+  | _, _ => true
+  end.
+
 Fixpoint first_diff (fx : bool) (c : cache) (i : nat) (steps : list (zop * zobs)) : option nat :=
   match steps with
   | [] => None
@@ -108,7 +132,7 @@ Fixpoint first_diff (fx : bool) (c : cache) (i : nat) (steps : list (zop * zobs)
       let '(c', r) := zstep fx c o in
       match r with
       | OPanic => match o_out b with BPanic => None | _ => Some i end
-      | _ => if eqb_out r (o_out b) && eqb_state c' b then first_diff fx c' (S i) t else Some i
+      | _ => if eqb_out r (o_out b) && eqb_state c' b && chk_sc c' r o false then first_diff fx c' (S i) t else Some i
       end
   end.
 
@@ -161,6 +185,7 @@ Fixpoint first_diff_w (fx : bool) (w : cache * cache) (i : nat) (steps : list (z
       | OPanic => match o_out b0 with BPanic => None | _ => Some i end
       | _ => if eqb_out r0 (o_out b0) && (if is_fwd r0 then eqb_out r1 (o_out b1) else true)
                 && eqb_state (fst w') b0 && eqb_state (snd w') b1
+                && chk_sc (fst w') r0 o false && (if is_fwd r0 then chk_sc (snd w') r1 o true else true)
              then first_diff_w fx w' (S i) t else Some i
       end
   end.
